@@ -76,11 +76,6 @@ fn oracle(expect_gone: bool, reput: bool) -> Oracle {
                 }
             }
         }
-        for c in run.calls.iter() {
-            if let Res::Panicked(m) = &c.res {
-                out.push(Finding::new("caller-panic", format!("panic:{}", normalize_panic(m)), format!("{} panicked: {}", c.op.short(), m)));
-            }
-        }
     })
 }
 
